@@ -82,19 +82,19 @@ end stack
 
 namespace cat
 
-/-- `aten_cat` (after fix 68ff4be): tensors of shape `(0,)` are dropped; nothing left → assertion;
+/-- `aten_cat` (after fix 68ff4be): tensors of shape `(0,)` are dropped; nothing left → `Identity` of the first tensor (fix e37a118);
 one left → `Identity`; otherwise `Concat` of the remaining tensors. -/
 def model (ss : List Shape) (dim : Int) : Option Shape :=
   let filtered := ss.filter (· != [0])
   match filtered with
-  | [] => none
+  | [] => ss.head?          -- fix e37a118: only legacy-empty tensors → `Identity(tensors[0])`
   | [s] => some s
   | _ => concatOp filtered dim
 
 def term (ss : List Shape) (dim : Int) : String :=
   let idx := (ss.zipIdx.filter (fun p => p.1 != [0])).map (·.2)
   match idx with
-  | [] => "ERR"
+  | [] => tOp "Identity" ["x0"]
   | [i] => tOp "Identity" ["x" ++ toString i]
   | _ => tOp "Concat" (idx.map (fun i => "x" ++ toString i)) [("axis", tI dim)]
 
